@@ -78,6 +78,10 @@ def run(ctx):
     # ... and through an absolute but not normalised sys.path entry inserted at run time
     # (sys.path.insert(0, os.path.join(HERE, "..", "nada-dsl")))
     cases = cases + [("tour-package-through-unnormalised-path", "unnormalised", c[2], c[3], c[4]) for c in cases if c[0] == "tour-lf"][:1]
+    # ... and the PROGRAM reached through a symbolic link whose name differs from its target's (current.py -> ../store/auction_v2.py)
+    cases = cases + [("tour-program-through-a-link-of-another-name", "linked_progs", "current.py", c[3], c[4]) for c in cases if c[0] == "tour-lf"][:1]
+    # ... and the program given by a RELATIVE path with a directory part (python -m nada_dsl.compile programs/main.py)
+    cases = cases + [("tour-relative-path", "relprogs", "main.py", c[3], c[4]) for c in cases if c[0] == "tour-lf"][:1]
     d = tempfile.mkdtemp(prefix="nadaverif_c19_")
     os.symlink(vlib.REPO, os.path.join(d, "link_to_repo"))
     total_items, nviol = 0, 0
@@ -86,8 +90,14 @@ def run(ctx):
         for name, dname, fname, text, tour in cases:
             os.makedirs(os.path.join(d, dname), exist_ok=True)
             path = os.path.join(d, dname, fname)
-            with open(path, "w", encoding="utf-8", newline="") as f:
-                f.write(text)
+            if name == "tour-program-through-a-link-of-another-name":
+                os.makedirs(os.path.join(d, "store"), exist_ok=True)
+                with open(os.path.join(d, "store", "auction_v2.py"), "w", encoding="utf-8", newline="") as f:
+                    f.write(text)
+                os.symlink(os.path.join("..", "store", "auction_v2.py"), path)
+            else:
+                with open(path, "w", encoding="utf-8", newline="") as f:
+                    f.write(text)
             if name == "two-files":
                 with open(os.path.join(d, dname, "c19_helper_module.py"), "w") as f:
                     f.write(srcref_cases.HELPER_MODULE)
@@ -95,7 +105,8 @@ def run(ctx):
                 os.makedirs(os.path.dirname(os.path.join(d, dname, rel)), exist_ok=True)
                 with open(os.path.join(d, dname, rel), "w") as f:
                     f.write(ftext)
-            rc, out, err, dt = vlib.run([vlib.PY, os.path.join(vlib.VERIF, "tools", "run_one.py"), path, "--script"], 120,
+            rc, out, err, dt = vlib.run([vlib.PY, os.path.join(vlib.VERIF, "tools", "run_one.py"),
+                                         (os.path.join(dname, fname) if name == "tour-relative-path" else path), "--script"], 120,
                                         cwd=d, env=(dict(vlib.impl_env(), PYTHONPATH=os.path.join(d, "link_to_repo"))
                                                     if name == "tour-package-through-link" else
                                                     dict(vlib.impl_env(), PYTHONPATH="", VERIF_LIBPATH=os.path.join(vlib.REPO, "tests", ".."))
